@@ -10,6 +10,6 @@ import (
 func init() {
 	c11.RedisCfgFault = redisCfgFault
 	registry["C11"] = entry{run: c11.Run, replay: func(r *monitor.Run, d json.RawMessage) { c11.Replay(r, d) }, level: "exploration",
-		rule: "cases = (a) seeded histories of joins/leaves (Subscribe/Unsubscribe/UnsubscribeAll) of 5 clients over share groups g1-g3 on overlapping filters, coexisting with non-shared subscriptions, on the memory and redis subscription stores: after every operation the shared lookups for ~80 probe topics and per client are compared with a reference table, and the non-shared lookups must be untouched; (b) wire scenarios: v5 members join/leave groups by every leaving mechanism, unique messages are published, and for every message and matching group the copies received by its current members must sum to exactly 1. Non-trivial = a group had >= 2 members when a message matched; distinct by scenario. Plus: a member with a 1 s session expiry leaves by expiry (messages published after the expiry and before any sweep belong to the others) and comes back without subscribing; a member's session ends while redis refuses the DEL of its queue.",
+		rule: "cases = (a) seeded histories of joins/leaves (Subscribe/Unsubscribe/UnsubscribeAll) of 5 clients over share groups g1-g3 on overlapping filters, coexisting with non-shared subscriptions, on the memory and redis subscription stores: after every operation the shared lookups for ~80 probe topics and per client are compared with a reference table, and the non-shared lookups must be untouched; (b) wire scenarios: v5 members join/leave groups by every leaving mechanism, unique messages are published, and for every message and matching group the copies received by its current members must sum to exactly 1. Non-trivial = a group had >= 2 members when a message matched; distinct by scenario. Plus: a member with a 1 s session expiry leaves by expiry (messages published after the expiry and before any sweep belong to the others) and comes back without subscribing; a member's session ends while redis refuses the DEL of its queue. Ops include leaving with DISCONNECT/Session Expiry Interval 0; 6 directed scenarios: a member that leaves that way, and the member with the 1 s expiry that drops, resumes at once and stays connected beyond the old deadline (sole member, then one of two).",
 		assumptions: []string{"refmodel.Match", "mqttx codec", "per-member sentinels decide completeness"}}
 }
